@@ -21,6 +21,11 @@ CONSTANTS
   EmptyDiff = {}
   RootCheckedOnEmptyDiff = TRUE
   VerdictPerAnswer = FALSE
+  ClassA = {}
+  ClassB = {}
+  SierraSet = {}
+  RememberKnown = FALSE
+  Windows = FALSE
 INIT Init
 NEXT Next
 INVARIANTS TypeOK LocalIsSourceBlocks ReorgExact StoredOnlyVerified
